@@ -195,9 +195,38 @@ def _matched(b, bb, l):
             eb.add(bb2)
     esc = b.must_pass(eb, b.returns(), start=err_t[0])
     # paths that loop back (no return) are caught by C16-RECOVER for read_input
+    if esc and _only_debug_asserted(b, l):
+        return "propagated"
     if esc:
         return "matched, but the Err arm can reach a return without building an error"
     return "propagated"
+
+
+def _only_debug_asserted(b, l):
+    """The Result is only inspected inside a debug_assert!: evaluated with the call answering Err, every path ends in
+    the assertion's own panic (no return, no further call) - the error is not swallowed, the author asserts that it
+    cannot occur (a statement the panic census counts as `stated[debug_assert]`)."""
+    from lib.peval import PE
+    src = [c for c in b.calls if c.dest["l"] == l and not c.dest["p"]]
+    if len(src) != 1:
+        return False
+    c = src[0]
+
+    def model(c2, av, env, pe):
+        if c2.bb == c.bb:
+            return (True, ("adt", 1, (None,)))
+        return None
+    try:
+        res = PE(b, model, max_states=4000).run(start=c.bb)
+    except RuntimeError:
+        return False
+    if res.returns or res.forks:
+        return False
+    ends = [c2 for bb_, c2, av in res.calls if c2.target is None]
+    if not ends:
+        return False
+    return all(any(e in ("macro:debug_assert", "macro:debug_assert_eq", "macro:debug_assert_ne") for e in c2.exp)
+               for c2 in ends)
 
 
 def run(ctx, rep):
